@@ -28,6 +28,14 @@ def c10a(ctx):
     cons = b.calls_to(r"kv_database::WriteBatch::consume_serialization_buffer$")
     push = [s for s in b.calls_to(r"alloc::vec::Vec::<T(, A)?>::push$") if "processed_logical_batch" in df.access_path(b, s.node["args"][0])]
     pops = b.calls_to(r"BinaryHeap::<T(, A)?>::pop$")
+    incq = lambda bd: bd.assigns(lambda st: st["rv"]["k"] == "bin" and st["rv"]["op"] in ("AddWithOverflow", "Add") and const_int(st["rv"]["b"]) == 1
+                                 and "expected_epoch" in df.access_path(bd, st["rv"]["a"]))
+    if not cons and not push and not incq(b) and len(pops) == 1:
+        # the apply step may live in one helper of the same module that is handed the popped task (a behaviour-preserving
+        # extraction): decide the helper's own order there and treat its call site as the site of the three anchors
+        hs = _apply_helper(ctx, b, pops[0], incq)
+        if hs is not None:
+            return _c10a_through_helper(ctx, o, b, pops[0], hs, incq)
     o.sites = len(cons) + len(push) + len(pops)
     if len(cons) != 1 or len(push) != 1 or len(pops) != 1:
         ctx.fail(o, Site(b, 0, 0), "anchors missing in process_pending_commits (consume=%d push=%d pop=%d)" % (len(cons), len(push), len(pops)))
@@ -68,6 +76,11 @@ def c10a(ctx):
     for s, idx in ((cons[0], 1), (push[0], 1)):
         if not any(x.kind == "call" and x.site == pops[0] for x in df.origins_of_operand(b, s.node["args"][idx])):
             ctx.fail(o, s, "process_pending_commits applies something other than the popped task")
+    _c10a_rest(ctx, b)
+
+
+def _c10a_rest(ctx, b):
+    prog = ctx.prog
     # the function gives up only when nothing is ready: heap empty, or its top is not the expected epoch
     o2 = ctx.ob("C10.a", "process_pending_commits/drains-until-nothing-is-ready", "K2",
                 "process_pending_commits returns only over `heap is empty` or `top.epoch != expected_epoch` (every ready batch is applied before it gives up)")
@@ -104,6 +117,62 @@ def c10a(ctx):
     p_ = ctx.touch(prog.body("<WriteTask as PartialOrd>::partial_cmp"))
     if not p_.calls_to(r"core::cmp::Ord::cmp$"):
         ctx.fail(o, Site(p_, 0, 0), "PartialOrd for WriteTask is not derived from Ord::cmp")
+
+
+def _apply_helper(ctx, b, pop, incq):
+    """(call site in b, helper body) of the single local function that receives the popped task and holds all three apply anchors."""
+    prog = ctx.prog
+    found = []
+    for s in b.calls():
+        fn = s.node["fn"]
+        h = prog.bodies.get(fn.get("res_key") or fn.get("key"))
+        if h is None or WB not in h.file or h is b:
+            continue
+        hc = h.calls_to(r"kv_database::WriteBatch::consume_serialization_buffer$")
+        hp = [x for x in h.calls_to(r"alloc::vec::Vec::<T(, A)?>::push$") if "processed_logical_batch" in df.access_path(h, x.node["args"][0])]
+        if len(hc) == 1 and len(hp) == 1 and len(incq(h)) == 1:
+            found.append((s, h, hc[0], hp[0], incq(h)[0]))
+    return found[0] if len(found) == 1 else None
+
+
+def _c10a_through_helper(ctx, o, b, pop, hs, incq):
+    prog = ctx.prog
+    s, h, hc, hp, hi = hs
+    ctx.touch(h)
+    o.sites = 4
+    if not df.dominated_by_equality(b, s.bb, "eq", lambda x, y: "epoch" in x.fields and "expected_epoch" in y.fields, prog) or \
+            not df.dominated_by_equality(b, pop.bb, "eq", lambda x, y: "epoch" in x.fields and "expected_epoch" in y.fields, prog):
+        ctx.fail(o, s, "the apply step (%s) is not restricted to `top.epoch == expected_epoch`: a batch could be applied out of creation order" % h.name)
+    # the helper is handed the popped task, and applies its parameter
+    targ = [i for i, a in enumerate(s.node["args"]) if any(x.kind == "call" and x.site == pop for x in df.origins_of_operand(b, a))]
+    if len(targ) != 1:
+        ctx.fail(o, s, "%s is not handed the popped task" % h.name)
+    else:
+        for x, idx in ((hc, 1), (hp, 1)):
+            if not any(y.kind == "param" and str(y.info).split(".")[0] == "_%d" % (targ[0] + 1) for y in df.origins_of_operand(h, x.node["args"][idx])):
+                ctx.fail(o, x, "%s applies something other than the task it was handed" % h.name)
+    # every path through the helper consumes, lists and advances exactly once: each anchor dominates the returns
+    for x in (hc, hp, hi):
+        for t in h.returns():
+            if not h.bb_dominates(x.bb, t):
+                ctx.fail(o, x, "%s can return without %s" % (h.name, "advancing expected_epoch" if x is hi else "applying the task"))
+    pk = b.calls_to(r"BinaryHeap::<T(, A)?>::peek$")
+    if len(pk) != 1:
+        ctx.fail(o, Site(b, 0, 0), "anchor missing: heap peek")
+    elif pk[0].bb in b.reachable([pop.node["t"]], removed_nodes=[s.bb]):
+        ctx.fail(o, s, "the loop can test the next pending batch without having advanced expected_epoch")
+    o3 = ctx.ob("C10.a", "process_pending_commits/consumed-before-listed-for-notification", "K1",
+                "consume_serialization_buffer precedes the push onto processed_logical_batch and every flush of the same iteration")
+    fl = b.calls_to(r"CurrentBatch::<Db>::flush$")
+    o3.sites = 1 + len(fl)
+    if not h.site_dominates(hc, hp):
+        ctx.fail(o3, hp, "a logical batch is listed for after-commit notification before its writes were moved into the physical batch")
+    if h.calls_to(r"CurrentBatch::<Db>::flush$"):
+        ctx.fail(o3, hc, "%s flushes the physical batch in the middle of applying a task" % h.name)
+    for f_ in fl:
+        if f_.bb in b.reachable([pop.node["t"]], removed_nodes=[s.bb]) and not b.site_dominates(s, f_):
+            ctx.fail(o3, f_, "the physical batch can be flushed between taking a task off the heap and consuming its buffer")
+    _c10a_rest(ctx, b)
 
 
 def c10b(ctx):
